@@ -89,6 +89,30 @@ func cmdC10(r *RNG, n int, e *Emitter, args []string) {
 		if delta < 0.6 {
 			delta = 0.6
 		}
+		if i%7 == 3 && !huge {
+			// a flat zigzag stroked as a Joined loop with a half-width above half its height: the closing segment runs
+			// through the zigzag, so the implied loop is a chain of lobes wound alternately, and the stroke is wider
+			// than the loop's bounding box is high
+			np := 4 + r.Intn(3)
+			line = line[:0]
+			x := int64(0)
+			for k := 0; k < np; k++ {
+				y := int64(S * (0.1 + 0.4*r.Float()))
+				if k%2 == 1 {
+					y = -y
+				}
+				line = append(line, clip.Point64{X: x, Y: y})
+				x += int64(S * (0.8 + r.Float()))
+			}
+			if r.Bool() { // upright instead of flat
+				for k := range line {
+					line[k] = clip.Point64{X: line[k].Y, Y: line[k].X}
+				}
+			}
+			et = clip.Joined
+			delta = S * (0.3 + 0.4*r.Float())
+			e.Count("shape=flat-zigzag-loop")
+		}
 		miter := []float64{2, 2, 3}[r.Intn(3)]
 		in0 := clip.Paths64{append(clip.Path64{}, line...)}
 		var out clip.Paths64
